@@ -27,9 +27,11 @@ KINDS = {
     'e[p=${2} q=${1}]': dict(sc=False, attrs=[[2], [1]], text=None),
     'f{${1:a} ${3} ${1}}': dict(sc=False, attrs=[], text=[1, 3, 1]),
     'g[id="${1:a}" class="${1:b}" p]': dict(sc=False, attrs=[[1], [1], 'caret'], text=None),
+    # multi-line text whose largest field index is not on its last line
+    'm{${2:a} ${1}\nb ${1:c}}': dict(sc=False, attrs=[], text=[2, 1, 1]),
 }
 IMPLICIT_KINDS = ['x', 'x{t}', 'y[p]', 'q[p=""]', 'z[p q=v]', 'w[p q]/', 'k/']
-POS_KINDS = ['x', 'x{t}', 'y[p]', 'q[p=""]', 'w[p q]/', 'f{${1:a} ${3} ${1}}', 'p{l1\nl2}', 'a', 'img']
+POS_KINDS = ['x', 'x{t}', 'y[p]', 'q[p=""]', 'w[p q]/', 'f{${1:a} ${3} ${1}}', 'p{l1\nl2}', 'a', 'img', 'p{l1\n}']    # ...text ending in its only line break
 MARKUP_SYNTAXES = ['html', 'xml', 'jsx', 'haml', 'pug', 'slim']
 STYLE_ABBRS = ['p', 'bd', 'p+bd', '@kf', 'trf:rx', 'lg', 'p10+m5-a!', '@ff', 'c#f.5']
 STYLE_SYNTAXES = ['css', 'sass', 'stylus']
